@@ -26,10 +26,6 @@ Theorem C08_splitlines_join : forall ls : list str,
   Forall no_break ls -> splitlines (concat (map text_line ls)) = ls.
 Proof. exact splitlines_join. Qed.
 
-(* text-mode reading ("\r\n", "\r" -> "\n") never changes the lines *)
-Theorem C08_splitlines_universal_newlines : forall s, splitlines (universal_newlines s) = splitlines s.
-Proof. exact splitlines_unl. Qed.
-
 (* utf8 encoding followed by decoding is the identity on strings of Unicode scalar values *)
 Theorem C08_utf8_roundtrip : forall s, scalar_str s -> utf8_decode (utf8_encode s) = s.
 Proof. exact utf8_roundtrip. Qed.
@@ -150,30 +146,31 @@ Theorem C08_whole_text_files :
     sorted_str (map fst (concat pss)).
 Proof. exact whole_text_files_spec. Qed.
 
-(* FULL statement of the clause: the value is the file's full decoded content.  It is FALSE of the code
-   (text-mode reading translates "\r\n" and "\r"), see C08_whole_text_refuted; what holds is the
-   _partial statement with the extra hypothesis [no_cr] (no carriage return in the content). *)
-Definition C08_whole_text_full (compress : codec -> bytes -> bytes) (decompress : codec -> bytes -> option bytes) : Prop :=
-  whole_text_full_statement compress decompress.
+(* the value is the file's full decoded content (carriage returns included), keyed by its path:
+   one file ... *)
+Theorem C08_whole_text_file :
+  forall (compress : codec -> bytes -> bytes) (decompress : codec -> bytes -> option bytes),
+  (forall c b, decompress c (compress c b) = Some b) ->
+  forall (f : fs) (p : path) (s : str) (minPartitions : option Z),
+  scalar_str s ->
+  fs_lookup f p = Some (enc compress (get_codec p) (utf8_encode s)) ->
+  exists pss, whole_text_files decompress f p minPartitions = Ok pss /\ concat pss = [(p, s)].
+Proof. exact whole_text_file. Qed.
 
-Theorem C08_whole_text_content_partial :
+(* ... and every file an expression resolves to *)
+Theorem C08_whole_text_content :
   forall (compress : codec -> bytes -> bytes) (decompress : codec -> bytes -> option bytes),
   (forall c b, decompress c (compress c b) = Some b) ->
   forall (f : fs) (expr : str) (minPartitions : option Z) (txt : path -> str),
   (forall n, In n (sort_str (resolve f expr)) ->
-     scalar_str (txt n) /\ no_cr (txt n) /\
+     scalar_str (txt n) /\
      fs_lookup f n = Some (enc compress (get_codec n) (utf8_encode (txt n)))) ->
   exists pss, whole_text_files decompress f expr minPartitions = Ok pss /\
     concat pss = map (fun n => (n, txt n)) (sort_str (resolve f expr)).
 Proof. exact whole_text_files_content. Qed.
 
-Theorem C08_whole_text_refuted :
-  forall (compress : codec -> bytes -> bytes) (decompress : codec -> bytes -> option bytes),
-  ~ C08_whole_text_full compress decompress.
-Proof. exact whole_text_refuted. Qed.
-
 (* wholeTextFiles over a data set written by saveAsTextFile: one pair per data file, keyed by its path,
-   holding exactly the text of its partition (the text a save writes never contains a carriage return) *)
+   holding exactly the text of its partition *)
 Theorem C08_whole_text_saved :
   forall (compress : codec -> bytes -> bytes) (decompress : codec -> bytes -> option bytes),
   (forall c b, decompress c (compress c b) = Some b) ->
@@ -280,6 +277,12 @@ Example splitlines_examples :
   splitlines [97; 8232; 98]%N = [[97]; [98]]%N /\
   no_break [97; 32; 9; 160]%N.
 Proof. vm_compute. repeat split; repeat constructor. Qed.
+
+(* "a\r\nb\rc\n" stored in the file w comes back unchanged *)
+Example whole_text_keeps_carriage_returns :
+  whole_text_files unident [([119], [97; 13; 10; 98; 13; 99; 10])]%N [119]%N None
+  = Ok [[([119], [97; 13; 10; 98; 13; 99; 10])]]%N.
+Proof. vm_compute. reflexivity. Qed.
 
 Example chunk_examples :
   fixed_chunks 5 [98;101;108;108;111;98;101;108;108;111]%N = Ok [[98;101;108;108;111]; [98;101;108;108;111]]%N /\
